@@ -1,6 +1,7 @@
 package main
 
 import (
+	"os"
 	"go/constant"
 	"sync/atomic"
 	"go/token"
@@ -537,8 +538,10 @@ func (a *Analysis) decLayout(ct *CodecType, p *Path) *PathLayout {
 			lo, it, ord, ok := manualIntAt(st.Src, ev.ID)
 			if !ok {
 				// a single byte of the block: rec[k]
-				if el := stripCT(st.Src); el.Op == "elem" && len(el.Args) == 2 && stripCT(el.Args[0]).Op == "wire" && stripCT(el.Args[0]).ID == ev.ID {
-					if k, isC := el.Args[1].Int64(); isC {
+				if el := stripCT(st.Src); el.Op == "elem" && len(el.Args) == 2 {
+					base, bhi, okW := wireOffset(el.Args[0], ev.ID)
+					if k, isC := el.Args[1].Int64(); isC && okW && k >= 0 && (bhi < 0 || base+k < bhi) {
+						k += base
 						ts = append(ts, tile{k, 1, &FieldLayout{Kind: "int", Type: "uint8", Name: c.fieldName(idx), GoField: idx, Pos: rootPos(ev), Ev: []*Event{ev}, WireIDs: []int{ev.ID}}})
 						continue
 					}
@@ -568,6 +571,16 @@ func (a *Analysis) decLayout(ct *CodecType, p *Path) *PathLayout {
 				ord = ""
 			}
 			ts = append(ts, tile{lo, sz, &FieldLayout{Kind: "int", Type: typeStr(it), Order: ord, Name: c.fieldName(idx), GoField: idx, Pos: rootPos(ev), Ev: []*Event{ev}, WireIDs: []int{ev.ID}}})
+		}
+		if os.Getenv("FPDEBUG") == "tiles" {
+			for _, t := range ts {
+				fmt.Fprintln(os.Stderr, "tile", ev.ID, t.lo, t.sz, t.f.Canon())
+			}
+			for _, st := range stores {
+				if containsWire(st.Src, ev.ID) {
+					fmt.Fprintln(os.Stderr, "  store", st.Src.Key())
+				}
+			}
 		}
 		if len(ts) < 2 {
 			return nil
